@@ -923,7 +923,7 @@ theorem transposeOp_block_forms (E : Env) (u : Nat) (k : ContCls) (td : TreeDef)
   obtain ⟨_, hoks, _⟩ := (StructOK_cont_iff u k td ops).mp hok
   have hf' : TFormOKList ops := by simpa only [TFormOK] using hf
   have hw' : WFTList ops := by simpa only [Op.WFT] using hw
-  have hS' : AllLeavesList (fun u c p => c = .toeplitz → LeafSymAt E u p) ops := by
+  have hS' : AllLeavesList (fun u c p => c = .toeplitz → toepK p.vals = none → LeafSymAt E u p) ops := by
     simpa only [EnvSymOn, AllLeaves] using hS
   exact ⟨ts, rfl, hts, tAtList E ops ts hS' hoks hf' hw' hts⟩
 
